@@ -25,6 +25,7 @@ type World struct {
 	obsMemo    map[*types.Func]int   // 1 observer, 2 not
 	detMemo    map[*types.Func]bool
 	predMemo   map[*types.Func]*predFormula
+	exprMemo   map[*types.Func]*ast.FuncDecl
 	InlinePreds bool // second reading: boolean helper calls stand for their bodies (see inline.go)
 	obsUse     map[types.Object]bool
 	obsDef     map[ast.Expr]bool
@@ -151,6 +152,7 @@ func (w *World) build(name string, fn *load.Func, lit *ast.FuncLit, recv *ast.Fi
 	if w.InlinePreds {
 		u.C.Inline = func(call *ast.CallExpr) *flow.F { return w.inlineCall(u, call) }
 	}
+	u.C.InlineExpr = func(call *ast.CallExpr) *ast.FuncDecl { return w.exprHelper(fn, call) }
 	u.Sites = flow.CollectSites(u.G, info)
 	return u
 }
